@@ -20,7 +20,9 @@ _PUSH_BOUNDS = ("STEP lemma: every int (34) / float (18) / bool (13) instruction
                 "with both operands from a 9-entry table of special values (thorough: full width, cap 25 min).  Print/PrintLn of i64/f64/bool with the operand from a concrete table "
                 "(0, -1, 42, MIN, MAX; 1.5, inf, NaN, -0.0; true, false), PrintString/PrintSpace/PrintNewline/PrintPeriod.  Exec instructions (generic Pop/Push/Dup/IsEmpty/StackDepth, Noop, "
                 "DupBlock, When, Unless, IfElse) against their documented action tables on exec stacks of 0..=2 distinct sentinel programs with symbolic conditions and maxima (Swap, Flush, deeper exec stacks next to a symbolic condition and "
-                "one-element blocks were measured at > 25 min / 9 GB per harness and are in NO tier).  BLOCK lemma on a builder-made PushState: a block of 0/2/3 sentinels unfolds in order onto an exec stack holding one "
+                "one-element blocks were measured at > 25 min / 9 GB per harness under Kani and are decided on the MIR instead: bin/mirexec executes the MIR of ExecInstruction::perform, the twelve instruction bodies behind it "
+                "and the HasStack / PushOnto / StackPush / StackDiscard / Error helpers for EVERY exec instruction on exec stacks of 0..=4 (quick) / 0..=6 (thorough) distinct opaque programs, 0..=2 symbolic conditions, 0..=1 integers and "
+                "symbolic per-stack maxima, with the Stack methods as the contract C04 decides; outcome, stacks, carried state, error class and capacity are compared with the documented action tables on every path).  BLOCK lemma on a builder-made PushState: a block of 0/2/3 sentinels unfolds in order onto an exec stack holding one "
                 "entry or is a fatal overflow that leaves the state unchanged (4 instances).  LOOP lemma (bin/mirloop, z3 on the MIR of run_to_completion): at most LIMIT steps for a symbolic "
                 "LIMIT, front-to-back order, the performed entry removed, carried state after a recoverable error, a fatal error ends the run, exit only on empty exec / limit; exec depth 0..=3, "
                 "<= 4 steps per path, the step itself fully nondeterministic.  Thorough only: DISPATCH through PushInstruction / PushProgram on a builder-made PushState for int add (also with a missing operand), bool and, exec noop, print space "
@@ -41,12 +43,17 @@ for _pid, _a, _what in (("C01", "a01", "outcome, stacks and output equal the ref
         "needs_rand_090": False,
         # LOOP lemma labels (bin/mirloop) that belong to this property
         "mirloop": {"L1": ["C01", "C03"], "L2": ["C01", "C02"], "L4": ["C03"], "L5": ["C01", "C03"]},
-        "functions": _PUSH_FUNCS + ["MIR of <PushState as State>::run_to_completion, State::perform, TryRecover::try_recover + closure (bin/mirloop, z3)"],
+        # STEP lemma for the exec-stack instructions on the MIR (bin/mirexec): exec depth bound per tier, labels per property
+        "mirexec": {"quick": 4, "thorough": 6, "labels": {"E1": ["C01"], "E2": ["C02"], "E3": ["C03"]}},
+        "functions": _PUSH_FUNCS + ["MIR of <PushState as State>::run_to_completion, State::perform, TryRecover::try_recover + closure (bin/mirloop, z3)",
+                                    "MIR of <ExecInstruction as Instruction<S>>::perform, <{When,Unless,IfElse,DupBlock,Noop} as Instruction<S>>::perform, <{Pop,PushValue,Dup,Swap,IsEmpty,StackDepth,Flush}<PushProgram> as Instruction<S>>::perform, "
+                                    "HasStack::{with_push,not_full}, PushOnto::push_onto, StackPush::with_stack_push, StackDiscard::with_stack_discard, Error::{fatal,recoverable,map_inner_err}, MapInstructionError::map_err_into (bin/mirexec, z3)"],
         "bounds": {"quick": _PUSH_BOUNDS + "; assertion set: " + _what, "thorough": _PUSH_BOUNDS + "; assertion set: " + _what},
         "outside": _PUSH_OUTSIDE,
         "assumptions": ["pre-states satisfy size <= max on every stack (inductive invariant, itself asserted as post-condition under C03)",
                         "STEP runs on the harness state type VState / EState (real Stacks; the instruction impls are generic over the state type)",
                         "exec harnesses stub <PushProgram as Clone>::clone with a model that rebuilds the sentinel of the same id (derived clone of a heap-read program: > 11 GB)",
+                        "bin/mirexec: Stack<T> methods are contract models (the all-or-nothing LIFO contract decided for the real type under C04); exec entries are opaque programs whose clone is an equal program; error-type conversions keep the StackError kind",
                         "in the C02 / C03 builds the C01 conditions are assumed (states consistent with C01); vacuity is excluded by a reachability witness per harness",
                         "when operands are missing AND the destination stack is full, either documented error (recoverable underflow / fatal overflow) is accepted"],
         # exec harnesses: a PushProgram read back from the heap loses its concrete discriminant in CBMC, so its
